@@ -71,7 +71,15 @@
      C07_host_fns_real, C07_host_fns_special_empty_string
                               the per-string host hypothesis for the REAL host functions under IdnaOK on (non-empty)
                               scalar-value strings; on the empty string it does not follow from IdnaOK (witness)
-   The gap: the pathname setter, host / hostname on file URLs (class 4 of Known_C07 covers them all), inputs and href
+     C07_pathname_standard_closed, C07_pathname_known_classes, C07_pathname_equiv
+                              the Standard's pathname setter in closed form (path start / path states with a state
+                              override); pathname on EVERY corrS pair (authority, no host, opaque path) and every value
+                              outside classes 1, 3, 4, 5, 9: the Standard's, no hypothesis on the host functions; the
+                              exclusions of the path equivalence lie inside classes 1 and 3 as computed on the raw value
+     C07_ten_setters_partial, C07_ten_histories, C07_ten_all, C07_statement_ten_all
+                              ALL TEN setters: one step, all histories, from every parsed start URL, and in the shape
+                              of C07_statement
+   The gap: host / hostname / pathname on file URLs (class 4 of Known_C07 covers them all), inputs and href
    values whose scheme is "file", href values whose URL exceeds u32::MAX bytes, and host_parse_ok in place of
    hosts_agree.
    It is covered by the fixed-seed differential run implementation <-> specification model of the
